@@ -5,6 +5,7 @@
 From Coq Require Import ZArith List String Bool Lia.
 From NadaV.PyMini Require Import PyMini.
 From NadaV.Model Require Import Rules Corr Mir Surface Trace Compile.
+From NadaV.Spec Require Import FoldSpec.
 Import ListNotations.
 Open Scope string_scope.
 Open Scope Z_scope.
@@ -34,9 +35,6 @@ Lemma pick_child x : pick [("child", 0)] "child" [x] = need_id x.  Proof. reflex
 Lemma pick_this x y z : pick roles3 "this" [x; y; z] = need_id x.  Proof. reflexivity. Qed.
 Lemma pick_arg0 x y z : pick roles3 "arg_0" [x; y; z] = need_id y.  Proof. reflexivity. Qed.
 Lemma pick_arg1 x y z : pick roles3 "arg_1" [x; y; z] = need_id z.  Proof. reflexivity. Qed.
-
-(* the value a literal wrapper records: booleans as 0 / 1 *)
-Definition lit_norm (b : base) (v : Z) : Z := match b with BBool => if Z.eqb v 0 then 0 else 1 | _ => v end.
 
 Section Inv.
 Variable A : Type.
